@@ -24,7 +24,7 @@ from .translate_rngflow import lean_str, is_self_attr, func_of
 VERIF = Path(__file__).resolve().parents[2]
 GEN = VERIF / "lean" / "KDVerif" / "Gen"
 PACKAGES = ["kappadata.wrappers", "kappadata.common.wrappers", "kappadata.common.datasets", "kappadata.datasets",
-            "kappadata.samplers.interleaved_sampler"]
+            "kappadata.samplers.interleaved_sampler", "kappadata.caching"]
 # layers whose inner `dataset` is a foreign torch dataset without a worker hook: they are roots of the KD stack
 FOREIGN_INNER = {"TorchWrapper", "KDImageFolder"}
 
@@ -369,7 +369,18 @@ def worker_init_info(cls, slots):
     info["owner"] = c.__name__
     src = ast.unparse(fn)
     info["callsOwn"] = "self._worker_init_fn(rank, **kwargs)" in src
-    info["forwardsInner"] = "self.dataset.worker_init_fn(rank, **kwargs)" in src
+    info["forwardsInner"] = False
+    for st in fn.body:
+        # unconditional, or guarded only by hasattr(self.dataset, 'worker_init_fn') (a KD layer below always has the hook)
+        if isinstance(st, ast.Expr) and ast.unparse(st.value) == "self.dataset.worker_init_fn(rank, **kwargs)":
+            info["forwardsInner"] = True
+        if isinstance(st, ast.If) and ast.unparse(st.test) == "hasattr(self.dataset, 'worker_init_fn')" and not st.orelse \
+                and any(isinstance(b, ast.Expr) and ast.unparse(b.value) == "self.dataset.worker_init_fn(rank, **kwargs)" for b in st.body):
+            info["forwardsInner"] = True
+    # transform slots initialised directly in worker_init_fn (layers that do not use the _worker_init_fn hook)
+    g0 = vars(sys.modules[c.__module__])
+    ok0, _ = calls_on_members(fn, "worker_init_fn", slots, g0)
+    info["initSlots"] = sorted(set(info["initSlots"]) | set(ok0))
     for n in ast.walk(fn):
         if isinstance(n, ast.For) and ast.unparse(n.iter) == "self.datasets" and isinstance(n.target, ast.Name):
             body = ast.unparse(n)
